@@ -10,7 +10,12 @@ forwards repository_path."""
 import ast
 import itertools
 import z3
-from .common import structural, call_cases, as_bool
+from .common import structural as _structural, call_cases, as_bool
+
+
+def structural(name, prop, ok, detail=''):
+    """pins on the writer / reader templates are exercised by the bounded repository-histories stand-in"""
+    return _structural(name, prop, ok, detail, standin='repository' if name.startswith(('writers/', 'paths/')) else None)
 
 PROP = 'C06'
 LEVEL = 'other'
@@ -231,3 +236,103 @@ print(json.dumps({"written_files": files, "read_back_error": err}))
     out = run_native(ctx, code)
     return {'confirmed': bool(out and out.get('read_back_error')), 'input': '%s(neon, 1, rate, repository_path=tmp) then get_%s_radiated_power_rate(neon, 1, tmp)' % (add, fam),
             'observed': out, 'expected': 'the rate just written is read back'}
+
+
+def bounded_repository_histories(ctx):
+    """Bounded stand-in (NOT a proof) for the file-system theorem that is not built: random histories of add_* calls over ten rate families
+    in a fresh temporary repository (new files and updates of existing files interleaved, overwrites of the same key), mirrored in a plain
+    dictionary; afterwards EVERY key of the universe is read through the public get_* functions: a written key returns the numbers of its
+    last write bit for bit, a never-written key raises RuntimeError; nothing is created outside the repository directory."""
+    from replaylib.native import run_native
+    n = 12 if ctx['tier'] == 'quick' else 150
+    code = '''
+import random, tempfile, shutil, os, numpy as np
+from cherab.core.atomic import helium, carbon, neon, deuterium
+from cherab.openadas import repository as R
+rnd = random.Random(%d)
+bad = []; cases = 0
+EL = [helium, carbon, neon]
+TR = [(3, 2), (4, 2), ("2s1 2p1 1P1.0", "2s2 1S0.0")]
+def table(nd=2):
+    ne = sorted(rnd.uniform(1e17, 1e21) for _ in range(rnd.randint(2, 4))); te = sorted(rnd.uniform(1, 1e4) for _ in range(rnd.randint(2, 5)))
+    d = {"ne": ne, "te": te}
+    if nd == 3:
+        d["td"] = sorted(rnd.uniform(0.1, 1e3) for _ in range(2)); d["rate"] = np.array([[[rnd.uniform(1e-20, 1e-12) for _ in d["td"]] for _ in te] for _ in ne])
+    else:
+        d["rate"] = np.array([[rnd.uniform(1e-20, 1e-12) for _ in te] for _ in ne])
+    return d
+FAM = {
+ "ionisation": (lambda k, v, p: R.add_ionisation_rate(k[0], k[1], v, repository_path=p), lambda k, p: R.get_ionisation_rate(k[0], k[1], repository_path=p), lambda: (rnd.choice(EL), rnd.randint(1, 2)), 2),
+ "recombination": (lambda k, v, p: R.add_recombination_rate(k[0], k[1], v, repository_path=p), lambda k, p: R.get_recombination_rate(k[0], k[1], repository_path=p), lambda: (rnd.choice(EL), rnd.randint(1, 2)), 2),
+ "thermal_cx": (lambda k, v, p: R.add_thermal_cx_rate(k[0], k[1], k[2], {k[3]: v}, repository_path=p), lambda k, p: R.get_thermal_cx_rate(k[0], k[1], k[2], k[3], repository_path=p),
+                lambda: (deuterium, 0, rnd.choice(EL), rnd.randint(1, 2)), 2),
+ "pec_excitation": (lambda k, v, p: R.add_pec_excitation_rate(k[0], k[1], k[2], v, repository_path=p), lambda k, p: R.get_pec_excitation_rate(k[0], k[1], k[2], repository_path=p),
+                    lambda: (rnd.choice(EL), rnd.randint(0, 1), rnd.choice(TR)), 2),
+ "pec_recombination": (lambda k, v, p: R.add_pec_recombination_rate(k[0], k[1], k[2], v, repository_path=p), lambda k, p: R.get_pec_recombination_rate(k[0], k[1], k[2], repository_path=p),
+                       lambda: (rnd.choice(EL), rnd.randint(0, 1), rnd.choice(TR)), 2),
+ "pec_thermal_cx": (lambda k, v, p: R.add_pec_thermal_cx_rate(k[0], k[1], k[2], k[3], k[4], v, repository_path=p), lambda k, p: R.get_pec_thermal_cx_rate(k[0], k[1], k[2], k[3], k[4], repository_path=p),
+                    lambda: (deuterium, 0, rnd.choice(EL), rnd.randint(1, 2), rnd.choice(TR)), 3),
+ "line_power": (lambda k, v, p: R.add_line_power_rate(k[0], k[1], v, repository_path=p), lambda k, p: R.get_line_radiated_power_rate(k[0], k[1], repository_path=p), lambda: (rnd.choice(EL), rnd.randint(0, 1)), 2),
+ "continuum_power": (lambda k, v, p: R.add_continuum_power_rate(k[0], k[1], v, repository_path=p), lambda k, p: R.get_continuum_radiated_power_rate(k[0], k[1], repository_path=p), lambda: (rnd.choice(EL), rnd.randint(1, 2)), 2),
+ "cx_power": (lambda k, v, p: R.add_cx_power_rate(k[0], k[1], v, repository_path=p), lambda k, p: R.get_cx_radiated_power_rate(k[0], k[1], repository_path=p), lambda: (rnd.choice(EL), rnd.randint(1, 2)), 2),
+}
+def universe(fam):
+    ks = set()
+    for _ in range(400): ks.add(FAM[fam][2]())
+    return sorted(ks, key=repr)
+def same(got, want):
+    return all(np.array_equal(np.asarray(got[f]), np.asarray(want[f])) for f in want)
+home_before = set(os.listdir(os.path.expanduser("~/.cherab"))) if os.path.isdir(os.path.expanduser("~/.cherab")) else None
+for trial in range(%d):
+    d = tempfile.mkdtemp(prefix="verif_c06_")
+    try:
+        model = {}
+        for step in range(rnd.randint(4, 14)):
+            fam = rnd.choice(sorted(FAM)); key = FAM[fam][2](); val = table(FAM[fam][3])
+            arg = {k: (v.copy() if hasattr(v, "copy") else list(v)) for k, v in val.items()}
+            if not fam.startswith("pec_"):
+                arg["rates"] = arg.pop("rate")          # the ADF11-type families take the table under the key 'rates' and return it as 'rate'
+            FAM[fam][0](key, arg, d)
+            model[(fam, key)] = val
+            if rnd.random() < 0.3:
+                key2 = (fam, key)
+                w = float(rnd.uniform(300, 900)); R.add_wavelength(key[0] if fam != "thermal_cx" and fam != "pec_thermal_cx" else key[2], 1, (3, 2), w, repository_path=d)
+                model[("wavelength", (key[0] if fam != "thermal_cx" and fam != "pec_thermal_cx" else key[2], 1, (3, 2)))] = w
+        for fam in sorted(FAM):
+            for key in universe(fam):
+                cases += 1
+                try:
+                    got = FAM[fam][1](key, d); err = None
+                except RuntimeError as e:
+                    got = None; err = "RuntimeError"
+                except Exception as e:
+                    got = None; err = type(e).__name__
+                want = model.get((fam, key))
+                if want is None and err != "RuntimeError":
+                    bad.append({"family": fam, "key": repr(key), "never_written_but": err or "data returned"})
+                elif want is not None and (got is None or not same(got, want)):
+                    bad.append({"family": fam, "key": repr(key), "written_but": err or "different numbers returned"})
+        for el in EL + [deuterium]:
+            cases += 1
+            want = model.get(("wavelength", (el, 1, (3, 2))))
+            try:
+                got = R.get_wavelength(el, 1, (3, 2), repository_path=d)
+            except RuntimeError:
+                got = None
+            if got != want:
+                bad.append({"family": "wavelength", "key": el.name, "got": got, "written": want})
+    finally:
+        shutil.rmtree(d, ignore_errors=True)
+    if len(bad) > 6: break
+home_after = set(os.listdir(os.path.expanduser("~/.cherab"))) if os.path.isdir(os.path.expanduser("~/.cherab")) else None
+if home_before != home_after:
+    bad.append({"stray_files_in_default_repository": sorted((home_after or set()) ^ (home_before or set()))[:5]})
+print(json.dumps({"cases": cases, "bad": bad[:6]}))
+''' % (ctx['seed'] + 6, n)
+    out = run_native(ctx, code, timeout=900)
+    return {'name': 'repository add/get histories vs a dictionary model, ten families (BOUNDED stand-in, not counted as proved)',
+            'ok': bool(out) and out.get('bad') == [], 'detail': out, 'covers': ['repository'],
+            'bound': '%d random histories of 4..14 writes, every key of the universe read back, seed %d' % (n, ctx['seed'] + 6)}
+
+
+BOUNDED = [bounded_repository_histories]
